@@ -250,21 +250,23 @@ func (b *OutboundBreaker) init(limit int64, interval time.Duration) (*OutboundBr
 	// still happened: keep the counts as long as they mean the
 	// same (same number of ticks of the same length).
 	fresh := len(b.counts) != ticks || b.interval != interval
+	// A window of another shape.  What the old one still holds (not
+	// what has aged out of it by now) has happened: it goes into the
+	// newest tick of the new one, as if it had happened just now.
+	// (That is on the safe side: nothing is forgotten early.)
+	var carried int64
+	if fresh && 0 < len(b.counts) {
+		b.slide(time.Now())
+		for _, n := range b.counts {
+			carried += n
+		}
+	}
 	b.limit = limit
 	b.interval = interval
 	b.ticks = ticks
 	if fresh {
-		// A window of another shape.  What the old one has counted
-		// still happened: it goes into the newest tick of the new
-		// one, as if it had happened just now.  (That is on the
-		// safe side: nothing is forgotten early.)
-		var carried int64
-		for _, n := range b.counts {
-			carried += n
-		}
-		had := 0 < len(b.counts)
 		b.counts = make([]int64, ticks)
-		if had {
+		if 0 < carried {
 			b.counts[0] = carried
 			b.updated = time.Now()
 		}
